@@ -24,6 +24,8 @@ ENGINES_META = [
      'kind_free_text': 'consumer + producer NDNApp joined by a simulated link with a corrupting middlebox; recording signers/verifiers'},
     {'name': 'clientconf', 'path': 'engines/clientconf.py', 'serves_properties': ['C20'],
      'kind_free_text': 'read_client_conf/default_face/default_keychain/NDNApp() over a fake Linux environment and simulated network'},
+    {'name': 'svsnet', 'path': 'engines/svsnet.py', 'serves_properties': ['C18'],
+     'kind_free_text': '2-4 real SvsInst nodes on their own NDNApps joined by a lossy simulated broadcast medium; per-node reference model; convergence probe'},
     {'name': 'svs', 'path': 'engines/svs.py', 'serves_properties': ['C18'],
      'kind_free_text': 'one real SvsInst on a v2 NDNApp, scripted peers, simulated wall clock and scripted timer randomness'},
     {'name': 'segfetch', 'path': 'engines/segfetch.py', 'serves_properties': ['C19'],
@@ -125,8 +127,11 @@ CHECKS['C18'] = dict(
          'the periodic (steady-state) timer is exercised but its emissions are not judged.',
     real=REAL_COMMON + ['ndn.app_support.svs.sync.SvsInst', 'ndn.app_support.svs.tlv', 'ndn.appv2.NDNApp (handler dispatch, signed-Interest validation)'],
     stub=STUB_COMMON + ['sync.time (simulated wall clock, 1 us granularity)', 'sync.secrets (scripted 16-bit sequence)', 'the sync group peers (scripted vectors)'],
-    rule='seed -> start + 2-10 events (vectors / publications / stop,start) aimed into the suppression window; non-trivial: '
-         '>=2 vectors and >=1 completed suppression period; distinct = order signature of rx/publish/tx')
+    rule='5/6 of seeds: one instance, start + 2-10 events (vectors / publications / stop,start) aimed into the suppression window '
+         '(non-trivial: >=2 vectors and >=1 completed suppression period); 1/6 of seeds: 2-4 real instances on a simulated '
+         'broadcast medium with loss, duplication, delay and a partition that heals, 2-8 publications, every node judged by the '
+         'same reference model (non-trivial: >=2 publications and >=1 fired fault), convergence after the last fault counted '
+         'as a probe; distinct = order signature of rx/publish/tx')
 
 
 CHECKS['C20'] = dict(
